@@ -595,6 +595,9 @@ def run(ctx):
         'isCCW = sign of the shoelace area is tested on generated simple rings, not proved (C07_isccw_partial)',
         'arbitrary finite doubles: antisymmetry of the orientation index under every swap of two arguments, symmetry of the LineIntersector '
         'class under swapping / reversing the segments and invariance of ring location under reversal are REQUIRED (C07-F2 fixed in 4bee31ef6)',
+        'soundness of the floating filter on arbitrary doubles (Ozaki et al. 2016) is NOT proved: proved are the shape of the generated filter and '
+        'theta <= coefficient < theta + 2^-104 (C07_filter_coeff_partial); the danger-band stream supplies triples whose double determinant has '
+        'the wrong sign with |det| up to ~2.9 u |detsum|',
         'correspondence is sampled (generator quality bounds it)']
     from translator.units import BY_PROPERTY
     units = BY_PROPERTY.get('C07', [])
@@ -631,6 +634,7 @@ def run(ctx):
     build_ccw(ctx, rng, st, bump, 1000 if q else 30000)
     build_env(ctx, rng, st, bump, 500 if q else 10000)
     build_float(ctx, rng, st, bump, 4000 if q else 150000)
+    build_band(ctx, rng, st, bump, 30000 if q else 600000, 600 if q else 12000, 200 if q else 4000)
     corpus = os.path.join(ROOT, 'gen/corpus/C07.txt')
     ncorpus = 0
     if os.path.exists(corpus):
@@ -687,7 +691,7 @@ def run(ctx):
     need = ['orient:det=0', 'orient:det=1', 'orient:det=-1', 'orient:det=2', 'orient:filter-fails', 'orient:filter-decides',
             'ring:B', 'ring:I', 'ring:E', 'ring:pt:vertex', 'ring:pt:vertex-y', 'ring:pt:edge-mid', 'poly:B', 'poly:I', 'poly:E', 'poly:in-hole', 'poly:nested:later-hole-behind-earlier-envelope', 'poly:nested:pt:notch-cell', 'poly:nested:pt:hole-cell',
             'seg:N', 'seg:P:proper', 'seg:P:endpoint', 'seg:C', 'seg:kind:collinear', 'seg:kind:zero-length', 'seg:kind:shared-endpoint',
-            'seg:kind:near-parallel', 'ccw:ccw', 'ccw:cw', 'float:orient', 'float:near-collinear', 'float:dd', 'float:intersection', 'float:wide-collinear', 'float:segments', 'float:ring']
+            'seg:kind:near-parallel', 'ccw:ccw', 'ccw:cw', 'float:orient', 'float:near-collinear', 'float:dd', 'float:intersection', 'float:wide-collinear', 'float:segments', 'float:ring', 'band:r>=2', 'band:r>=2.5', 'band:r>=1']
     for k in need:
         if dist.get(k, 0) == 0:
             ctx.broken.append(dict(kind='generator', name='distribution:' + k, detail='no case of class %s was generated' % k))
@@ -1158,6 +1162,97 @@ def build_float(ctx, rng, st, bump, n):
             st.add('RB %s %s %d %s' % (hx(p[0]), hx(p[1]), len(ring), ' '.join('%s %s' % (hx(x), hx(y)) for x, y in ring)), chk, kind='float-ring', nontrivial=True)
 
 
+# ------------------------------------------------------------------------------------------------ filter danger band
+def gen_band_triple(rng):
+    """a triple of binary64 points built so that the rounding errors of the filter's double determinant
+         det = (ax-cx)(by-cy) - (ay-cy)(bx-cx)
+    add up in ONE direction while the exact determinant is tiny: c has half-integer ordinates, a and b integer ordinates of
+    magnitude 2^52..2^53, so each of the four differences is (integer + 1/2) and rounds by half an ulp in a direction chosen by
+    the parity of the integer; the products then round by up to half an ulp more. A = ax-cx, C = ay-cy near 2^52 (relative
+    rounding error ~u), B = by-cy anywhere in the binade, E = bx-cx ~ AB/C. Returns float points (a, b, c)."""
+    P = 2 ** 52
+    up = rng.choice([0, 1])
+
+    def near1(par):
+        N = P + rng.randrange(2 ** 26, 2 ** rng.choice([30, 34, 38, 44, 48]))
+        return N + 1 if N % 2 != par else N
+
+    def anym(par):
+        N = rng.randrange(P, 2 * P - 4)
+        return N + 1 if N % 2 != par else N
+    NA = near1(up); NB = anym(up) if rng.random() < 0.8 else near1(up)
+    A2 = 2 * NA + 1; B2 = 2 * NB + 1
+    best = None
+    for _ in range(8):
+        NC = near1(1 - up); C2 = 2 * NC + 1
+        E2 = (A2 * B2) // C2
+        NE = (E2 - 1) // 2 if E2 % 2 else E2 // 2
+        if NE % 2 != (1 - up):
+            NE += rng.choice([1, -1])
+        D = abs(A2 * B2 - C2 * (2 * NE + 1))
+        if best is None or D < best[0]:
+            best = (D, NC, NE)
+    _, NC, NE = best
+    kx = rng.randrange(-2 ** 20, 2 ** 20); ky = rng.randrange(-2 ** 20, 2 ** 20)
+    a = (NA + kx + 1, NC + ky + 1); b = (NE + kx + 1, NB + ky + 1)
+    if any(not (P <= abs(v) < 2 * P) for q in (a, b) for v in q):
+        return None
+    return (float(a[0]), float(a[1])), (float(b[0]), float(b[1])), (kx + 0.5, ky + 0.5)
+
+
+PERM6 = [((0, 1, 2), 1), ((0, 2, 1), -1), ((1, 0, 2), -1), ((1, 2, 0), 1), ((2, 0, 1), 1), ((2, 1, 0), -1)]
+
+
+def build_band(ctx, rng, st, bump, ncand, keep_hi, keep_lo):
+    """triples on which the DOUBLE determinant has the wrong sign (or is non-zero for an exactly collinear triple), ranked by
+    r = |det| / (u |detleft + detright|): the closer r comes to the filter's coefficient (about 3u) the closer the filter is to
+    accepting a wrong sign. Kept: the highest r first. Each triple goes through all six argument orders."""
+    U = 2.0 ** -53
+    cands = []
+    for _ in range(ncand):
+        t = gen_band_triple(rng)
+        if t is None:
+            continue
+        a, b, c = t
+        dl = (a[0] - c[0]) * (b[1] - c[1]); dr = (a[1] - c[1]) * (b[0] - c[0])
+        d = dl - dr; sm = dl + dr
+        if sm == 0 or d == 0:
+            continue
+        F = Fraction
+        D = (F(a[0]) - F(c[0])) * (F(b[1]) - F(c[1])) - (F(a[1]) - F(c[1])) * (F(b[0]) - F(c[0]))
+        if D != 0 and (d > 0) == (D > 0):
+            continue                              # the double determinant has the right sign: not a danger case
+        cands.append((abs(d) / (U * abs(sm)), a, b, c, sgn(D)))
+    bump('band:candidates', ncand); bump('band:naive-sign-wrong', len(cands))
+    cands.sort(key=lambda x: -x[0])
+    hi = [x for x in cands if x[0] >= 2.0][:keep_hi]
+    lo = [x for x in cands if x[0] < 2.0]
+    rng.shuffle(lo)
+    for r, a, b, c, sD in hi + lo[:keep_lo]:
+        bump('band:r>=2.5' if r >= 2.5 else 'band:r>=2' if r >= 2.0 else 'band:r>=1' if r >= 1.0 else 'band:r<1')
+        if r >= 2.0:
+            bump('band:r>=2(all)')
+        # exact symmetries of the construction: scaling by a power of two, reflections, exchanging the axes
+        k = rng.choice([0, 0, -60, 37, -300, 200, -52, 1])
+        fx = rng.choice([1, -1]); fy = rng.choice([1, -1]); sw = rng.random() < 0.3
+        T = lambda q: (lambda x, y: (y, x) if sw else (x, y))(math.ldexp(fx * q[0], k), math.ldexp(fy * q[1], k))
+        pts = [T(a), T(b), T(c)]
+        line = 'OP ' + ' '.join(hx(v) for q in pts for v in q)
+
+        def chk(io, mo, r=r):
+            t = io.split()
+            if 'EXC' in io or len(t) != 6:
+                return 'exception on finite doubles: %s' % io
+            idx = [int(x.split(':')[0]) for x in t]
+            if any(idx[i] != sg * idx[0] for i, (_, sg) in enumerate(PERM6)):
+                return ('orientation index not antisymmetric over the six argument orders abc acb bac bca cab cba: %s '
+                        '(index:filter; the double determinant of the first order has the wrong sign with |det| = %.3f u |detleft+detright|)' % (io, r))
+            if mo is not None and mo != io:
+                return 'generated binary64 units (orientationIndex:filter, six orders) = %s, implementation = %s' % (mo, io)
+            return None
+        st.add(line, chk, kind='band', nontrivial=True)
+
+
 # ------------------------------------------------------------------------------------------------ corpus / shrinking
 def corpus_check(line):
     """a stored case line: rebuild its check from the line itself"""
@@ -1184,6 +1279,19 @@ def corpus_check(line):
             t = io.split()
             if t[0] != str(s) or t[1] != str(s) or t[2] != str(-s) or t[4] != str(-s):
                 return 'orientation %s, exact sign %d' % (io, s)
+            return None
+        return chk
+    if tag == 'OP':
+
+        def chk(io, mo):
+            t = io.split()
+            if 'EXC' in io or len(t) != 6:
+                return 'exception on finite doubles: %s' % io
+            idx = [int(x.split(':')[0]) for x in t]
+            if any(idx[i] != sg * idx[0] for i, (_, sg) in enumerate(PERM6)):
+                return 'orientation index not antisymmetric over the six argument orders abc acb bac bca cab cba: %s (index:filter)' % io
+            if mo is not None and mo != io:
+                return 'generated binary64 units (orientationIndex:filter, six orders) = %s, implementation = %s' % (mo, io)
             return None
         return chk
     if tag == 'OB':                      # arbitrary doubles: antisymmetry under both swaps, model = implementation
